@@ -115,17 +115,50 @@ def gen(rng, alphabet: bytes, depth=3, allow_eos=False) -> Re:
     return Rep(body, lo, lo + rng.randint(0, 2))
 
 
+def _swapcase(c):
+    return c ^ 0x20 if (65 <= c <= 90 or 97 <= c <= 122) else c
+
+
+def fold(r: Re) -> Re:
+    """the regex that, matched case-SENSITIVELY, accepts what `r` accepts under re.IGNORECASE (bytes patterns:
+    ASCII letters only): every class gets the other-case variants of its members; negation is applied afterwards"""
+    if isinstance(r, Cls):
+        members = {c for a, b in r.ranges for c in range(a, b + 1)}
+        members |= {_swapcase(c) for c in members}
+        ranges, run = [], None
+        for c in sorted(members):
+            if run and c == run[1] + 1:
+                run[1] = c
+            else:
+                run = [c, c]
+                ranges.append(run)
+        return Cls([tuple(x) for x in ranges], r.neg)
+    if isinstance(r, Seq):
+        return Seq(fold(r.a), fold(r.b))
+    if isinstance(r, Alt):
+        return Alt(fold(r.a), fold(r.b))
+    if isinstance(r, Rep):
+        return Rep(fold(r.r), r.lo, r.hi)
+    return r
+
+
+def fold_field(f: str) -> str:
+    """wire field `I<regex>` (compiled with re.IGNORECASE by the harness) -> `X<folded regex>` for the Lean side"""
+    return "X" + fold(parse_wire(f[1:])).wire() if f[:1] == "I" and len(f) > 1 and f[1] in "EZSARC" else f
+
+
 class Pat:
     """a channel search string: literal bytes / str, or a compiled bounded regex"""
 
-    def __init__(self, kind, value, as_str=False):
+    def __init__(self, kind, value, as_str=False, icase=False):
         self.kind = kind          # "lit" | "re"
         self.value = value        # bytes | Re
         self.as_str = as_str      # pass literal as `str` to the API
+        self.icase = icase        # compile with re.IGNORECASE (wire prefix `I`)
 
     def wire(self):
         from wire import hx
-        return ("L" + hx(self.value)) if self.kind == "lit" else ("X" + self.value.wire())
+        return ("L" + hx(self.value)) if self.kind == "lit" else (("I" if self.icase else "X") + self.value.wire())
 
     def api(self):
         if self.kind == "lit":
@@ -135,7 +168,7 @@ class Pat:
                 except UnicodeDecodeError:
                     return self.value
             return self.value
-        return re.compile(self.value.py(), re.DOTALL)
+        return re.compile(self.value.py(), re.DOTALL | (re.IGNORECASE if self.icase else 0))
 
     def raw(self) -> bytes:
         return self.value if self.kind == "lit" else b""
@@ -178,6 +211,6 @@ def pat_of_wire(s: str, as_str=False) -> Pat:
     from wire import unhx
     if s[0] == "L":
         return Pat("lit", unhx(s[1:]), as_str)
-    if s[0] == "X":
-        return Pat("re", parse_wire(s[1:]))
+    if s[0] in "XI":
+        return Pat("re", parse_wire(s[1:]), icase=s[0] == "I")
     raise ValueError(s)
